@@ -200,7 +200,7 @@ func TestC18(t *testing.T) {
 	if os_only_regress() {
 		return
 	}
-	search(t, rec, "history", budget(2500, 80000), 30, func(rt *rapid.T) {
+	search(t, rec, "history", budget(2500, 640000), 30, func(rt *rapid.T) {
 		w := newC18World(c)
 		fail := func(sig, msg string) {
 			if sig != "" {
